@@ -349,7 +349,44 @@ func ruleTick(c *Ctx) {
 		return
 	}
 	env := newProvEnv(pk, fd)
-	rs := rangeOver(fd.Body, func(x ast.Expr) bool { return strings.HasSuffix(exprString(x), ".background") })
+	isBg := func(x ast.Expr) bool { return strings.HasSuffix(exprString(x), ".background") }
+	rs := rangeOver(fd.Body, isBg)
+	timeParam := "" // name of the clock parameter in the function that holds the loop
+	if ps := fd.Type.Params.List; len(ps) > 0 && len(ps[0].Names) > 0 {
+		timeParam = ps[0].Names[0].Name
+	}
+	if rs == nil {
+		// the loop may live in a method of the package that Tick calls unconditionally at its top
+		// level, handing it the clock
+		for _, st := range fd.Body.List {
+			es, ok := st.(*ast.ExprStmt)
+			if !ok {
+				continue
+			}
+			call, ok := es.X.(*ast.CallExpr)
+			if !ok {
+				continue
+			}
+			fn, ok := calleeOf(info, call).(*types.Func)
+			if !ok || fn.Pkg() != pk.Types {
+				continue
+			}
+			hd := funcDeclOf(pk, fn)
+			if hd == nil || hd.Body == nil {
+				continue
+			}
+			if r := rangeOver(hd.Body, isBg); r != nil {
+				// which parameter of the helper receives Tick's clock
+				for i, a := range call.Args {
+					if id, ok := ast.Unparen(a).(*ast.Ident); ok && id.Name == timeParam && i < fn.Type().(*types.Signature).Params().Len() {
+						rs = r
+						env = newProvEnv(pk, hd)
+						timeParam = fn.Type().(*types.Signature).Params().At(i).Name()
+					}
+				}
+			}
+		}
+	}
 	if rs == nil {
 		c.und("tick/background-loop", fd.Pos(), "loop over the background coroutines not found")
 	} else {
@@ -392,7 +429,7 @@ func ruleTick(c *Ctx) {
 					}
 				}
 				// the elapsed atom compares (t - bg.last) with the signal timeout
-				ok = ok && strings.Contains(elapsed, "SignalTimeout") && strings.Contains(elapsed, "param:t - ")
+				ok = ok && strings.Contains(elapsed, "SignalTimeout") && strings.Contains(elapsed, "param:"+timeParam+" - ")
 			}
 			o := c.check(ok, "tick/readd-condition", ifs.Pos(), "re-added iff ¬api.Done ∧ interval elapsed ∧ (no previous instance ∨ previous completed)", "the re-add condition of background coroutines is not `¬api.Done ∧ (t - last) ≥ interval ∧ (promise == nil ∨ promise.Completed())`")
 			if !ok {
